@@ -1,0 +1,155 @@
+//go:build verif
+
+package lsm
+
+import (
+	"fmt"
+
+	"github.com/feichai0017/NoKV/kv"
+	"github.com/feichai0017/NoKV/metrics"
+	"github.com/feichai0017/NoKV/utils"
+)
+
+// VerifTableEnv is a harness-owned stand-in for the level manager: just the
+// options and the caches a table needs. It lets a simulation build, open and
+// query a single SST through the production builder/table/iterator code without
+// opening a database (simulation accessor, build tag verif).
+type VerifTableEnv struct {
+	lm *levelManager
+}
+
+// VerifNewTableEnv creates a table environment. Relevant options: WorkDir, FS,
+// BlockSize, BloomFalsePositive, SSTableMaxSz, BlockCacheSize, BloomCacheSize.
+func VerifNewTableEnv(opt *Options) *VerifTableEnv {
+	return &VerifTableEnv{lm: &levelManager{opt: opt, cache: newCache(opt)}}
+}
+
+// Close releases the caches (tables are closed separately).
+func (e *VerifTableEnv) Close() {
+	if e == nil || e.lm == nil || e.lm.cache == nil {
+		return
+	}
+	_ = e.lm.cache.close()
+}
+
+// CacheMetrics returns the cache hit/miss counters of this environment.
+func (e *VerifTableEnv) CacheMetrics() metrics.CacheSnapshot {
+	return e.lm.cache.metricsSnapshot()
+}
+
+// VerifTable is one SST opened through a VerifTableEnv.
+type VerifTableHandle struct {
+	t *table
+}
+
+func verifGuard(what string, fn func() error) (err error) {
+	defer func() {
+		if r := recover(); r != nil {
+			err = fmt.Errorf("verif: %s panicked: %v", what, r)
+		}
+	}()
+	return fn()
+}
+
+// Build writes the entries (already sorted by internal key) into <fid>.sst the
+// way the flush path does (newTableBuiler + AddKey + openTable) and returns the
+// opened table.
+func (e *VerifTableEnv) Build(fid uint64, entries []*kv.Entry) (h *VerifTableHandle, err error) {
+	err = verifGuard("table build", func() error {
+		builder := newTableBuiler(e.lm.opt)
+		for _, en := range entries {
+			builder.AddKey(en)
+		}
+		t := openTable(e.lm, utils.FileNameSSTable(e.lm.opt.WorkDir, fid), builder)
+		if t == nil {
+			return fmt.Errorf("verif: openTable(builder) returned nil for fid %d", fid)
+		}
+		h = &VerifTableHandle{t: t}
+		return nil
+	})
+	return h, err
+}
+
+// Open opens an existing <fid>.sst the way the level manager does at startup.
+func (e *VerifTableEnv) Open(fid uint64) (h *VerifTableHandle, err error) {
+	err = verifGuard("table open", func() error {
+		t := openTable(e.lm, utils.FileNameSSTable(e.lm.opt.WorkDir, fid), nil)
+		if t == nil {
+			return fmt.Errorf("verif: openTable returned nil for fid %d", fid)
+		}
+		h = &VerifTableHandle{t: t}
+		return nil
+	})
+	return h, err
+}
+
+// CloseHandle unmaps and closes the file without deleting it (the table keeps
+// its base reference, so the reference-count-driven delete never runs).
+func (h *VerifTableHandle) CloseHandle() error { return h.t.closeHandle() }
+
+// Search is table.Search with maxVs as the exclusive lower version bound.
+func (h *VerifTableHandle) Search(key []byte, maxVs uint64) (en *kv.Entry, err error) {
+	gerr := verifGuard("table search", func() error {
+		en, err = h.t.Search(key, &maxVs)
+		return nil
+	})
+	if gerr != nil {
+		return nil, gerr
+	}
+	return en, err
+}
+
+// NewIterator returns a table iterator without block prefetching.
+func (h *VerifTableHandle) NewIterator(asc bool) utils.Iterator {
+	return h.t.NewIterator(&utils.Options{IsAsc: asc})
+}
+
+// Guard runs fn and converts a panic of the table code into an error.
+func (h *VerifTableHandle) Guard(what string, fn func()) error {
+	return verifGuard(what, func() error { fn(); return nil })
+}
+
+// MinKey / MaxKey / KeyCount / HasBloom / Size expose table metadata.
+func (h *VerifTableHandle) MinKey() []byte   { return h.t.MinKey() }
+func (h *VerifTableHandle) MaxKey() []byte   { return h.t.MaxKey() }
+func (h *VerifTableHandle) KeyCount() uint32 { return h.t.KeyCount() }
+func (h *VerifTableHandle) HasBloom() bool   { return h.t.HasBloomFilter() }
+func (h *VerifTableHandle) Size() int64      { return h.t.Size() }
+
+// BlockCount returns the number of data blocks.
+func (h *VerifTableHandle) BlockCount() int {
+	idx := h.t.index()
+	if idx == nil {
+		return 0
+	}
+	return len(idx.GetOffsets())
+}
+
+// DataRegionLen returns the number of bytes occupied by data blocks (the file
+// offset at which the index block starts).
+func (h *VerifTableHandle) DataRegionLen() int {
+	idx := h.t.index()
+	if idx == nil {
+		return 0
+	}
+	end := 0
+	for _, bo := range idx.GetOffsets() {
+		if e := int(bo.GetOffset()) + int(bo.GetLen()); e > end {
+			end = e
+		}
+	}
+	return end
+}
+
+// BlockBaseKeys returns a copy of every block's first key.
+func (h *VerifTableHandle) BlockBaseKeys() [][]byte {
+	idx := h.t.index()
+	if idx == nil {
+		return nil
+	}
+	var out [][]byte
+	for _, bo := range idx.GetOffsets() {
+		out = append(out, kv.SafeCopy(nil, bo.GetKey()))
+	}
+	return out
+}
